@@ -107,7 +107,7 @@ func main() {
 			fatal("%v", err)
 		}
 		for _, e := range ents {
-			if strings.HasSuffix(e.Name(), ".go") {
+			if strings.HasSuffix(e.Name(), ".go") || strings.HasSuffix(e.Name(), ".s") {
 				overlay[filepath.Join(*repo, "src", "vrt", sub, e.Name())] = filepath.Join(*vrtDir, sub, e.Name())
 			}
 		}
